@@ -201,7 +201,7 @@ def capability(ctx, prog, rep, spec, tag):
     nb = None
     for g in prog.group("SubDevice::new"):
         if g.calls_to("Ports::new"):
-            nb = g
+            nb = g  # the map(|dl_status| ..) closure, or the async body itself
     ok = nb is not None
     if ok:
         c = nb.calls_to("Ports::new")[0]
@@ -231,7 +231,7 @@ def capability(ctx, prog, rep, spec, tag):
         pr = Prov(b, follow_all={"Result::map"})
         pf = Prov(b, follow_all={"Result::map", "SupportFlags::dc_support"})
         fl = pf.of_operand(q.agg_field(ag[0][2], "dc_support"))
-        po = pr.of_operand(q.agg_field(ag[0][2], "ports"))
+        po = Prov(b, follow_all={"Result::map", "Ports::new"}).of_operand(q.agg_field(ag[0][2], "ports"))
         ok = has_root(fl, "via", "SupportFlags::dc_support") and has_root(fl, "await", "WrappedRead::receive") and has_root(po, "await", "WrappedRead::receive")
         regs = set()
         for c in b.calls_to("SubDeviceRef::read"):
